@@ -309,7 +309,43 @@ def r07_7(ctx):
            'del self._pool[i], self._poolctrl[pid], self._on_ready_counters[pid]')
 
 
+def r07_10(ctx):
+    ctx.rule('R07.10', 'close() flags only the supervisor: the task feeder and the result handler stay in RUN until '
+                       'join() / terminate(), because they still have the queued jobs and their results to move',
+             floor=2)
+    m = ctx.model
+    marks = {}
+    for qn, fi in sorted(m.funcs.items()):
+        if fi.module.name != 'pool' or fi.cls is None or fi.cls.name != 'Pool':
+            continue
+        for (n, c) in q.calls(fi, lambda t: t.startswith('self._') and t.count('.') == 2 and
+                              t.split('.')[1].endswith('_handler') and t.split('.')[2] in ('close', 'terminate')):
+            marks.setdefault(fi.callee(c), []).append((fi, c))
+    # the recogniser must see the one legitimate early mark
+    q.need('self._worker_handler.close' in marks, 'Pool.close no longer flags the supervisor (matcher or code changed)')
+    for cal, sites in sorted(marks.items()):
+        helper, what = cal.split('.')[1], cal.split('.')[2]
+        for (fi, c) in sites:
+            if helper == '_worker_handler':
+                ok = fi.name in ('close', 'terminate')
+                why = 'the supervisor is flagged by close() / terminate()'
+            else:
+                ok = fi.name in ('terminate', '_terminate_pool')
+                why = ('%s.%s() from Pool.%s' % (helper, what, fi.name)) if ok else \
+                    '%s is flagged in Pool.%s: the feeder drops every job still queued (its loop tests the thread ' \
+                    'state per task), the result handler stops reading -- jobs accepted before close() never ' \
+                    'resolve' % (helper, fi.name)
+            ctx.ob('R07.10', 'Pool.%s:%s.%s' % (fi.name, helper, what), ok, fi, c, why)
+
+
 def run(ctx):
+    r07_10(ctx)
+    # the worker that ran a job is recorded as its owner on every accepting path: the consumed-result credit is
+    # keyed by it (a missing owner = a worker that waits out its 30 s guard at shutdown)
+    from .c03 import r03_5
+    from ..report import Only
+    r03_5(Only(ctx, ('_worker_pid-recorded', 'owner-is-always-recorded'), floor=2,
+               doc='ApplyResult._ack records the accepting worker as the owner on every accepting path'))
     r07_1(ctx)
     r07_2(ctx)
     r07_3(ctx)
@@ -329,6 +365,12 @@ def run(ctx):
 
 _P = 'billiard/pool.py'
 MUTANTS = [
+    ('close-flags-the-feeder', _P, "            self._worker_handler.close()\n            self._taskqueue.put(None)\n",
+     "            self._worker_handler.close()\n            self._task_handler.close()\n            self._taskqueue.put(None)\n", 'R07.10'),
+    ('close-flags-the-result-handler', _P, "            self._worker_handler.close()\n            self._taskqueue.put(None)\n",
+     "            self._worker_handler.close()\n            self._result_handler.close()\n            self._taskqueue.put(None)\n", 'R07.10'),
+    ('owner-recorded-only-when-acked', _P, "            self._accepted = True\n            self._time_accepted = time_accepted\n            self._worker_pid = pid\n            if self.ready():",
+     "            self._accepted = True\n            self._time_accepted = time_accepted\n            if self._send_ack:\n                self._worker_pid = pid\n            if self.ready():", 'R03.5'),
     ('task-feeder-snapshots-the-worker-list', _P, "        self.put = put\n        self.outqueue = outqueue\n        self.pool = pool\n",
      "        self.put = put\n        self.outqueue = outqueue\n        self.pool = list(pool)\n", 'R07.9'),
     ('refill-state-checked-once', _P, "        for i in range(self._processes - len(self._pool)):\n            if self._state != RUN:\n                return\n",
